@@ -81,7 +81,9 @@ class Ctx:
         return self.tier == "quick"
 
     # ---- TLC on the specification itself
-    def mc(self, module: str, cfg: str, *, workers="auto", extra=None, timeout=3600, env=None, heap_gb=None, label=None):
+    def mc(self, module: str, cfg: str, *, workers="auto", extra=None, timeout=None, env=None, heap_gb=None, label=None):
+        if timeout is None:
+            timeout = 3600 if self.quick else 4 * 3600
         r = tlc.run_tlc(module, cfg, workers=workers, extra=extra, timeout=timeout, env=env, heap_gb=heap_gb)
         self.states += r.distinct
         self.transitions += r.generated
